@@ -134,7 +134,7 @@ let op_of_string (s : string) : op =
   | ["wf"; flags; opc; mask; h] -> OpWrite (MFrame { f_hdr = header_of_fields flags opc mask; f_payload = bytes_of_hex h })
   | ["c"; "-"] -> OpClose None
   | ["c"; code; h] -> OpClose (close_of_fields code h)
-  | ["sb"; a; b] -> OpSetBuf (n_of_string a, (if b = "inf" then u64_max else n_of_string b))
+  | ["sb"; a; b] | ["sb"; a; b; _] | ["sn"; a; b; _] -> OpSetBuf (n_of_string a, (if b = "inf" then u64_max else n_of_string b))
   | _ -> failwith ("bad op " ^ s)
 
 let rd_of_string s = match split ':' s with
